@@ -1,3 +1,3 @@
 SPECIFICATION LiveSpec
-CONSTANTS MaxJobs = 2  MaxFail = 1  GenDepth = 0  WeakDeps = FALSE  WeakOnce = FALSE  WeakBound = FALSE
+CONSTANTS MaxJobs = 2  MaxFail = 1  GenDepth = 0  WeakDeps = FALSE  WeakOnce = FALSE  WeakBound = FALSE  Dags = {1, 2, 3, 4, 5, 6}
 PROPERTY Termination
